@@ -360,5 +360,34 @@ pub proof fn theorem_each_attribute_is_in_exactly_one_map(attrs: Seq<StructureTa
         text_view(r.attrs.m@) =~= entry_fold(entry_attrs(re.0), entry_attrs(re.0).len()).text, //# C15.text_map_holds_exactly_the_all_utf8_attributes_values_in_order
         bin_view(r.bin_attrs.m@) =~= entry_fold(entry_attrs(re.0), entry_attrs(re.0).len()).bin, //# C15.binary_map_holds_every_value_of_the_other_attributes
 //@end
+
+// ---- Pre/PostRead response control (RFC 4527): the control value is a SearchResultEntry; ReadEntryResp::parse is
+// parse_tag + ResultEntry::new + SearchEntry::construct.  parse_tag is a function of the bytes here (V-lber-dec proves it is
+// the reference decoder and that it inverts ber); "well-formed response value" = it parses to a tree of the RFC 4511 4.5.2 shape.
+pub struct NomErr { pub k: u8 }
+pub type IResult<I, O> = core::result::Result<(I, O), NomErr>;
+pub uninterp spec fn parse_spec(b: Seq<u8>) -> Option<StructureTag>;
+#[verifier::external_body]
+pub fn parse_tag<'a>(i: &'a [u8]) -> (r: IResult<&'a [u8], StructureTag>)
+    ensures match parse_spec(i@) { Some(t) => r matches Ok(p) && p.1 == t, None => r is Err }
+{ unimplemented!() }
+pub struct ReadEntryResp { pub attrs: HashMap<Vec<String>>, pub bin_attrs: HashMap<Vec<Vec<u8>>> }
+//@lift name=ResultEntry::new file=src/search.rs impl="impl\s+ResultEntry\s*\{" fn=new
+//@ sub "fn new(st: StructureTag) -> ResultEntry" => "fn result_entry_new(st: StructureTag) -> ResultEntry"
+//@ ret r
+//@ spec
+    ensures r.0 == st, r.1@.len() == 0, //# C15+C19.result_entry_new_wraps_the_tag_with_no_controls
+//@end
+//@lift name=ReadEntryResp::parse file=src/controls_impl/read_entry.rs impl="impl\s+ControlParser\s+for\s+ReadEntryResp\s*\{" fn=parse
+//@ sub "fn parse(val: &[u8]) -> ReadEntryResp" => "fn read_entry_resp_parse(val: &[u8]) -> ReadEntryResp"
+//@ sub "SearchEntry::construct(" => "construct("
+//@ sub "ResultEntry::new(" => "result_entry_new("
+//@ ret r
+//@ spec
+    requires parse_spec(val@) matches Some(t) && wf_entry(t), //# C19.read_entry_response_must_be_a_well_formed_entry_else_panics_by_contract
+    ensures
+        text_view(r.attrs.m@) =~= entry_fold(entry_attrs(parse_spec(val@)->0), entry_attrs(parse_spec(val@)->0).len()).text, //# C19.read_entry_response_text_attributes_are_the_entrys
+        bin_view(r.bin_attrs.m@) =~= entry_fold(entry_attrs(parse_spec(val@)->0), entry_attrs(parse_spec(val@)->0).len()).bin, //# C19.read_entry_response_binary_attributes_are_the_entrys
+//@end
 } // verus!
 fn main() {}
